@@ -11,7 +11,11 @@ SlackMs == 1500
 Bad(rule, detail) == PrintT(<<"MISMATCH", pos, rule, detail>>)
 Check(cond, rule, detail) == IF cond THEN TRUE ELSE Bad(rule, detail)
 Rules(e) ==
-  /\ Check(e.outcome \in {"resp", "err"}, "a call returned neither a response nor an error", e.key)
+  /\ Check(e.outcome # "never" /\ e.returns = 1, "a call did not return exactly once (the asynchronous callback was never, or repeatedly, invoked)", <<e.key, e.returns>>)
+  /\ Check(e.outcome \in {"resp", "err", "never"}, "a call returned neither a response nor an error", e.key)
+  \* once the server answers everything at once, a call with a generous time-out gets its own answer: what is left of the
+  \* faulty phase (entries, slots of the concurrency limit) must not starve it
+  /\ e.healthy => Check(e.outcome = "resp", "a call to a healthy server failed (something leaked from earlier calls starves it)", <<e.key, e.err>>)
   /\ (e.outcome = "resp") => Check(e.own, "a call received a response that is not the response to its own request", <<e.key, e.value>>)
   /\ Check(e.latency_ms <= e.timeout_ms + SlackMs, "a call blocked beyond its time-out", <<e.key, e.timeout_ms, e.latency_ms>>)
   /\ (e.cancel_ms >= 0 /\ e.outcome = "err") => Check(e.latency_ms <= e.timeout_ms + SlackMs, "a cancelled call kept blocking", <<e.key, e.cancel_ms, e.latency_ms>>)
